@@ -252,4 +252,3 @@ Proof.
   apply Inv_rref; auto.
 Qed.
 
-Print Assumptions gauss_structure.
